@@ -704,6 +704,10 @@ def p_path_param(b):
             ("nested:pre_bad+handler_good", [NEST([{"k": "pre", "c": "PREX_PPY"}, R("PPX_OK")])]),
             ("nested:wrap_good+handler_bad", [NEST([{"k": "wrap", "c": "WRAPX_PPX"}, R("PP_BAD")])]),
             ("nested:post_bad+handler_good", [NEST([{"k": "post", "c": "POSTX_PPY"}, R("PPX_OK")])]),
+            # one #[PathParams] struct shared by two routes, only one of which declares its field
+            ("shared_struct:good_then_bad", [R("PPX_OK"), R("PPX_OK_STATIC_UNDER_PREFIX")]),
+            ("shared_struct:bad_then_good", [R("PPX_OK_STATIC_UNDER_PREFIX"), R("PPX_OK")]),
+            ("shared_struct:good_then_bad_nested", [R("PPX_OK"), NEST([R("PPX_OK_STATIC_UNDER_PREFIX")])]),
             ("under_param_prefix:other_name", [NEST([R("PP_BAD_STATIC")], "/{y}")]),
             ("under_param_prefix:two_levels", [NEST([NEST([R("PP_BAD")], "/{z}")], "/q")]),
         ]:
